@@ -54,7 +54,7 @@ def run(ck: Check):
     ck.rule = ("micro-specs and enumeration as in C01; the mapper runs with ENERGY|LATENCY and ENERGY|LATENCY|RESOURCE_USAGE; "
                "TLC decides completeness / non-dominance / no duplicates on rank-transformed vectors. Non-trivial = "
                "(micro-spec, metric set) whose enumerated front has at least two points; distinct by (world, metrics).")
-    worlds = c01.microspecs(ck, 4 if not thorough else 20, start=200)
+    worlds = c01.microspecs(ck, 3 if not thorough else 20, start=200)
     priced, results = c01.collect(ck, worlds, MSETS)
     byid = {w["id"]: w for w in worlds}
     cases, meta = [], {}
